@@ -23,6 +23,14 @@
 // rule of git-lfs is assumed. Git itself is asked (`git config -z -l`, same
 // cwd/env/-c) to confirm it reads the setting as the generator intended.
 //
+// Derived state: git-lfs folds lfs.extension.<n>.* of all sources into one
+// record per name, so the precedence block also holds cases in which the
+// user's configuration defines the extensions completely and .lfsconfig names
+// another priority for one of them (observed through env, ext list and the
+// ext-N-name lines of clean). Allow-listed shapes that merely CONTAIN an unsafe
+// key (remote.<lfs.customtransfer.n.path>.lfsurl ...) are kept by both twins;
+// there the verdict comes from the execution marker of the sentinel program.
+//
 // Weakest reading taken: stderr is NOT compared (the warning listing ignored
 // keys legitimately differs); a key outside the allow-list that changes nothing
 // observable is fine.
@@ -177,6 +185,31 @@ func (ev *evaluator) evalCase(c kase) []verdict {
 			}
 		}
 	}
+	// a transfer agent the user never configured is offered to the server (even if no program got as far as running)
+	if c.Kind == "confusion" && len(out) == 0 {
+		for _, l := range a.Contacts {
+			if i := strings.Index(l, " transfers="); i >= 0 {
+				for _, tr := range strings.Split(strings.Fields(l[i+1:])[0][len("transfers="):], ",") {
+					if tr != "" && !standardTransfers[tr] && len(out) == 0 {
+						e := c.Entries[0]
+						for _, x := range c.Entries {
+							if x.Name != "lfs.url" {
+								e = x
+							}
+						}
+						out = append(out, verdict{evid.Sig{Symptom: "custom-transfer-offered", Trigger: "key=" + e.Name},
+							fmt.Sprintf("transfer agent %q, defined by nothing but %s in .lfsconfig (%s), is offered in a batch request: %s", tr, e.K, c.Loc, l), detail(nil)})
+					}
+				}
+			}
+		}
+	}
+	if c.Kind == "confusion" {
+		run.Count("confusion_cases_marker_and_offer_checked", 1)
+	}
+	if c.Kind == "extprio" {
+		run.Count("extension_priority_checks", 1)
+	}
 	if len(out) > 0 {
 		return out
 	}
@@ -270,7 +303,7 @@ func (ev *evaluator) evalCase(c kase) []verdict {
 
 func main() {
 	run := evid.New("C11", "exploration")
-	run.Rule = "seeded generator of .lfsconfig files from a table of every key git-lfs/git reads (lfs.*, lfs.<url>.*, lfs.customtransfer.*, lfs.extension.*, remote.*, branch.*, credential.*, core.*, http.*, url.*, filter.*, ssh.*, include*) with random case, quoted/dotted section syntax, quoting, comments, continuation lines, duplicates; 50% of the cases hold exactly one key outside the documented allow-list (templates visited round-robin), 30% mixtures (minimised key by key on failure), 15% precedence cases (allow-listed key also set in local/global/environment git configuration), 5% controls; plus a stratified precedence block (one case per (kind of Git-side value in {other, empty, blank, same, boolalt|valueless}, place of the Git-side setting in {local, global, cmdline, env, include}) pair per 25 cases, keys walked so that 10 blocks visit every triple; 0-2 further overridden keys per case; command set env/fetch/pull/push with an object that exists nowhere so that lfs.skipdownloaderrors and lfs.allowincompletepush are observable); location in {work tree, index only, HEAD only, bare} with decoy files in the locations that are not consulted; 8 remote layouts (http, auth-demanding, two remotes, single non-origin, dotted names, ssh, git://). Each case runs the command set in twin repositories (L vs filter_doc(L)) and compares stdout+exit code, requests at the in-driver endpoint, sentinel executions, final state. A class is (kind, location, key pattern | mixture shape | overridden keys)."
+	run.Rule = "seeded generator of .lfsconfig files from a table of every key git-lfs/git reads (lfs.*, lfs.<url>.*, lfs.customtransfer.*, lfs.extension.*, remote.*, branch.*, credential.*, core.*, http.*, url.*, filter.*, ssh.*, include*) with random case, quoted/dotted section syntax, quoting, comments, continuation lines, duplicates; 50% of the cases hold exactly one key outside the documented allow-list (templates visited round-robin), 30% mixtures (minimised key by key on failure), 15% precedence cases (allow-listed key also set in local/global/environment git configuration), 5% controls; plus a stratified precedence block (one case per (kind of Git-side value in {other, empty, blank, same, boolalt|valueless}, place of the Git-side setting in {local, global, cmdline, env, include}) pair per 25 cases, keys walked so that 10 blocks visit every triple; 0-2 further overridden keys per case; command set env/fetch/pull/push with an object that exists nowhere so that lfs.skipdownloaderrors and lfs.allowincompletepush are observable); plus extension-priority cases (the user's Git configuration, in one of the five places, fully defines 1-3 filter extensions with existing commands and distinct priorities, 0 for the target in two of three; .lfsconfig in worktree/index/HEAD sets another priority for the same name; commands env, ext list, clean; one case in six leaves the target without a priority = the recorded documentation gap); plus confusion cases (one key of the allow-listed shapes remote.<name>.lfsurl / lfs.<url>.access whose subsection spells out lfs.customtransfer.<n>.path|args|direction|concurrent, lfs.extension.<n>.clean|smudge or lfs.standalonetransferagent, value = sentinel program; oracle = execution marker, else a non-standard transfer offered in a batch request); location in {work tree, index only, HEAD only, bare} with decoy files in the locations that are not consulted; 8 remote layouts (http, auth-demanding, two remotes, single non-origin, dotted names, ssh, git://). Each case runs the command set in twin repositories (L vs filter_doc(L)) and compares stdout+exit code, requests at the in-driver endpoint, sentinel executions, final state. A class is (kind, location, key pattern | mixture shape | overridden keys)."
 	run.Assumptions = []string{
 		"allow-list = bullet list under '== LFSCONFIG' in docs/man/git-lfs-config.adoc; {*} and {name} match any non-empty subsection",
 		"stderr is not an observable (the 'unsafe keys were ignored' warning legitimately differs)",
@@ -358,6 +391,26 @@ func main() {
 		}
 		for j := 0; j < nOver; j++ {
 			c := ev.gen.genOverrideCase(n+j, j)
+			if f := os.Getenv("C11_FILTER"); f != "" && !strings.Contains(c.class(), f) { // development aid only
+				continue
+			}
+			cases = append(cases, c)
+		}
+		// precedence clause on derived state (extension records) and allow-listed keys that spell out unsafe ones
+		nExt, nConf := run.N(12, 300), run.N(8, 160)
+		if v := os.Getenv("C11_NEXT"); v != "" { // development aid only
+			nExt = atoi(v)
+		}
+		if v := os.Getenv("C11_NCONF"); v != "" { // development aid only
+			nConf = atoi(v)
+		}
+		for j := 0; j < nExt+nConf; j++ {
+			var c kase
+			if j < nExt {
+				c = ev.gen.genExtPrioCase(n+nOver+j, j)
+			} else {
+				c = ev.gen.genConfusionCase(n+nOver+j, j-nExt)
+			}
 			if f := os.Getenv("C11_FILTER"); f != "" && !strings.Contains(c.class(), f) { // development aid only
 				continue
 			}
